@@ -274,7 +274,13 @@ func (s *State) Commit() ([]byte, error) {
 
 	s.height = version
 
-	versionToDelete := version - s.keepLastStates - 1
+	keepLastStates := s.keepLastStates
+	if keepLastStates < 1 {
+		// the previous version must survive until the new height has been recorded in the app DB:
+		// a process that dies in between restarts from the previous height and has to load it
+		keepLastStates = 1
+	}
+	versionToDelete := version - keepLastStates - 1
 	if versionToDelete < s.InitialVersion {
 		return hash, nil
 	}
